@@ -378,9 +378,10 @@ int scan_from_with(var input, int pos, const char* fmt, var args) {
     
     /* Match %% */
     if (*fmt is '%' and *(fmt+1) is '%') {
-      int err = format_from(input, pos, "%%");
+      int off = 0;
+      int err = format_from(input, pos, "%%%n", &off);
       if (err < 0) { throw(FormatError, "Unable to input '%%%%'!"); }
-      pos += 2;
+      pos += off;
       fmt += 2;
       continue;
     }
